@@ -36,7 +36,14 @@ def extra_programs(ctx):
             f.write(json.dumps({"api": "cdn.range", "offset": str(off), "length": str(ln), "length_zero": ln == 0, "offset_zero": off == 0}) + "\n")
         for s in range(3):
             f.write(json.dumps({"api": "fixed.paths", "seed": ctx.seed + s, "n": 200}) + "\n")
-    return p, 33 + 8 + 3
+        for disk in (True, False):
+            f.write(json.dumps({"api": "cdn.objects", "disk": disk}) + "\n")
+        names = ["", "a", "ab", "abc", "abcd", "0123456789abcdef0123456789abcdef", "a\u00e9", "\u20acuro", "ab\u20ac", "abc\u00e9x",
+                 "\u65e5\u672c\u8a9e", "a/b", "../x", "../../../../x", "ab/../../x", "/abs", "a b", "a\tb", "x" * 300]
+        for nm in names:
+            # names travel hex-encoded: the strings are deliberately not ASCII
+            f.write(json.dumps({"api": "cdn.archive_name", "name_hex": nm.encode().hex(), "len": len(nm.encode())}) + "\n")
+    return p, 33 + 8 + 3 + 2 + len(names)
 
 
 def judge(ctx, trace, source, kd):
